@@ -18,9 +18,10 @@ func init() {
 			"R2 an aggregation forwards a metric to its worker only after PreMatch accepted the name, contributes to a bucket only after the regex stage accepted it, and PreMatch plus MatchRegexAndExpand together consult all six options; " +
 			"R3 on every path of Match, PreMatch and MatchRegexAndExpand the boolean result equals the documented conjunction of the options the path evaluated (right polarity per option, empty option = no constraint, predicate applied to the whole name parameter); the only tolerated early exits are the two derived-prefix shortcuts with their sound polarity; " +
 			"R4 the aggregator match cache is accessed under its mutex, keyed by the name being looked up, and stores only the fresh result for that key or the entry just read.",
-		NotDecided: "that the static prefix derived from a regex (regexToPrefix) is implied by every match of that regex — a claim about all regular expressions (it is wrong for '^ab?c', '^foo|bar', '^abc*'); RE2 semantics; cache expiry timing.",
+		NotDecided: "RE2 semantics of the expression itself; the derived prefix beyond the first three scan steps of regexToPrefix (R7 relies on the loop body being the same for every later position) and for implementations that are not a byte scan; cache expiry timing.",
 		Rules: []RuleDef{
-			{ID: "C03.R1", Min: 12, Doc: "name only: at every call site of a filter entry point the argument has kind NAME (fields[0] of bytes.Fields, ValidatePacket's key, line[:IndexByte(line,' ')], RW.Do of a NAME, or a NAME parameter), and no store to the name slot can occur between reading it and the call", Run: c03r1},
+			{ID: "C03.R7", Min: 1, Doc: "derived prefix: every path of matcher.regexToPrefix over the first scan steps (concrete scan position, comparisons evaluated over the 256 byte values) that yields a prefix has seen '^' at position 0 and no '|' in the expression, takes only characters that stand for themselves (or the character of an escaped punctuation) contiguously from position 1, and leaves out the character in front of ?, * or {", Run: c03r7},
+			{ID: "C03.R1", Min: 12, Doc: "name only: at every call site of a filter entry point the argument has kind NAME (fields[0] of bytes.Fields, ValidatePacket's key, line[:IndexByte(line,' ')], RW.Do of a NAME, or a NAME parameter), and no store to the name slot can occur between reading it and the call; the LINE kind that route.metricName relies on (name = text before the first space) is established at every Route.Dispatch call site (rule C04.R2 evaluated for this property as well)", Run: func(c *Check) { c03r1(c); c04r2(c) }},
 			{ID: "C03.R2", Min: 4, Doc: "aggregation filter completeness: in AddMaybe every path to the send on Aggregator.in passed the true edge of PreMatch(name); in run every path to AddOrCreate passed the ok edge of matchWithCache; the matcher fields read by PreMatch and MatchRegexAndExpand cover prefix, notPrefix, sub, notSub, regex, notRegex", Run: c03r2},
 			{ID: "C03.R3", Min: 3, Doc: "truth table: enumerate all paths of Match / PreMatch / MatchRegexAndExpand as partial assignments of atoms (option set? predicate true?) and compare the returned constant with the documented formula in three-valued logic", Run: c03r3},
 			{ID: "C03.R5", Min: 10, Doc: "only complete filters are installed: at every call site of matcher.New each use of the returned Matcher is dominated by the no-error edge of the test of the returned error (or returns it together with that error) — on a compile error New returns a Matcher whose regex/notRegex are nil, i.e. one that ignores those options", Run: c03r5},
@@ -163,6 +164,33 @@ func c03r5(c *Check) {
 	n := errGated(c, "matcher.New", modPath+"/matcher.New", "the Matcher returned by matcher.New")
 	if n == 0 {
 		anchorFail("no call site of matcher.New")
+	}
+	c.Stat("loop-alias sites", loopAliasCheck(c, "kept pointer is per-iteration"))
+	// a filter built inside a loop is built from this iteration's options only
+	for _, fn := range c.P.Funcs {
+		var loops []*Loop
+		allInstrs(fn, func(in ssa.Instruction) {
+			call, ok := in.(*ssa.Call)
+			if !ok || calleeName(call.Common()) != modPath+"/matcher.New" {
+				return
+			}
+			if loops == nil {
+				loops = loopsOf(fn)
+			}
+			l := innermostLoop(loops, in.Block())
+			if l == nil {
+				return
+			}
+			bad := ""
+			for i, a := range call.Call.Args {
+				if s := loopCarried(c.P, a, l, in); s != "" {
+					bad = fmt.Sprintf("argument %d of matcher.New: %s", i, s)
+					break
+				}
+			}
+			c.Judge(bad == "", "filter options are per-iteration "+FuncName(fn)+" → matcher.New", c.At(in), "no option value survives from an earlier iteration of the enclosing loop",
+				bad+": an entry inherits the options of the entries before it, so its filter is the conjunction of several configured entries instead of the one that was written")
+		})
 	}
 }
 
@@ -584,23 +612,73 @@ func c03r3(c *Check) {
 				nShortcut++
 			}
 			rv := pa.Ret[sp.retIndex]
+			type outcome struct {
+				asg map[string]bool
+				got int
+			}
+			var outs []outcome
 			if rv == nil {
-				problems = append(problems, "result is not a constant on path "+pa.String())
-				continue
+				// `return <predicate>`: the same as branching on the predicate and returning the constant
+				done := false
+				if sp.retIndex < len(pa.RetV) && pa.RetV[sp.retIndex] != nil {
+					if r, ok := roles[fn]; ok && !badHelper[fn] {
+						if a, neg, _ := atomOf(pa.RetV[sp.retIndex], r[0], r[1]); a != "" {
+							for _, val := range []bool{true, false} {
+								asg2 := map[string]bool{}
+								for k, v := range asg {
+									asg2[k] = v
+								}
+								if old, had := asg2[a]; had && old != val {
+									continue
+								}
+								asg2[a] = val
+								g := 0
+								if val != neg {
+									g = 1
+								}
+								outs = append(outs, outcome{asg2, g})
+							}
+							done = true
+						}
+					}
+				}
+				if !done {
+					problems = append(problems, "result is not a constant on path "+pa.String())
+					continue
+				}
+			} else {
+				got := 0
+				if rv.String() == "true" {
+					got = 1
+				}
+				outs = append(outs, outcome{asg, got})
 			}
-			got := 0
-			if rv.String() == "true" {
-				got = 1
+			for _, o := range outs {
+				asg, got := o.asg, o.got
+				if v, ok := asg["P:prefixFromRegex"]; ok && !v {
+					if _, done := asg["P:regex"]; !done {
+						asg["P:regex"] = false
+					}
+				}
+				if v, ok := asg["P:prefixFromNotRegex"]; ok && !v {
+					if _, done := asg["P:notRegex"]; !done {
+						asg["P:notRegex"] = false
+					}
+				}
+				opts := opts
+				if _, ok := asg["P:regex"]; ok && sp.fn == "PreMatch" && len(opts) == len(sp.opts) {
+					opts = append(append([]string(nil), opts...), "regex")
+				}
+				want := evalFormula(opts, asg)
+				if want == got {
+					continue
+				}
+				if want == -1 {
+					problems = append(problems, fmt.Sprintf("returns %v without evaluating every set option: %s", got == 1, pa.String()))
+					continue
+				}
+				problems = append(problems, fmt.Sprintf("returns %v where the documented conjunction gives %v: %s", got == 1, want == 1, pa.String()))
 			}
-			want := evalFormula(opts, asg)
-			if want == got {
-				continue
-			}
-			if want == -1 {
-				problems = append(problems, fmt.Sprintf("returns %v without evaluating every set option: %s", got == 1, pa.String()))
-				continue
-			}
-			problems = append(problems, fmt.Sprintf("returns %v where the documented conjunction gives %v: %s", got == 1, want == 1, pa.String()))
 		}
 		sort.Strings(problems)
 		key := "matcher." + sp.fn + " truth table"
@@ -617,9 +695,17 @@ func c03r3(c *Check) {
 
 func c03r4(c *Check) {
 	cacheF := c.P.Field("aggregator", "Aggregator", "reCache")
-	muF := c.P.Field("aggregator", "Aggregator", "reCacheMutex")
 	matcherF := c.P.Field("aggregator", "Aggregator", "Matcher")
-	// (a) lockset on reCache map operations
+	reCacheLockset(c)
+	c03r4b(c, cacheF, matcherF)
+}
+
+// reCacheLockset: (a) of C03.R4 — every operation on the aggregator's match cache holds reCacheMutex,
+// writes hold it exclusively.
+func reCacheLockset(c *Check) {
+	cacheF := c.P.Field("aggregator", "Aggregator", "reCache")
+	muF := c.P.Field("aggregator", "Aggregator", "reCacheMutex")
+	nAll := 0
 	for _, fn := range c.P.Funcs {
 		ops := mutexOps(fn)
 		n, bad := 0, 0
@@ -650,14 +736,38 @@ func c03r4(c *Check) {
 				first = in
 			}
 			same := func(mo mutexOp) bool { return mo.field == muF && sameBase(mo.base, base) }
-			if _, held := heldAt(ops, same, in); !held {
+			isWrite := false
+			switch x := in.(type) {
+			case *ssa.MapUpdate:
+				isWrite = true
+			case *ssa.Call:
+				if b, ok := x.Call.Value.(*ssa.Builtin); ok && b.Name() == "delete" {
+					isWrite = true
+				}
+			}
+			held := false
+			if isWrite {
+				// a map write needs the exclusive lock: under a read lock two dispatchers write concurrently
+				// (the runtime aborts the process with "concurrent map writes")
+				_, held = heldExclusiveAt(ops, same, in)
+			} else {
+				_, held = heldAt(ops, same, in)
+			}
+			if !held {
 				bad++
 			}
 		})
 		if n > 0 {
-			c.Judge(bad == 0, FuncName(fn)+" reCache under reCacheMutex", c.At(first), fmt.Sprintf("%d map operations, all with the mutex held", n), fmt.Sprintf("%d of %d operations on the match cache without reCacheMutex (AddMaybe on input goroutines races with the aggregator worker)", bad, n))
+			nAll += n
+			c.Judge(bad == 0, FuncName(fn)+" reCache under reCacheMutex", c.At(first), fmt.Sprintf("%d map operations, all with the mutex held (writes exclusively)", n), fmt.Sprintf("%d of %d operations on the match cache without reCacheMutex held in the mode they need — a write under a read lock included (AddMaybe on input goroutines races with other inputs and the aggregator worker; a concurrent map write aborts the process)", bad, n))
 		}
 	}
+	if nAll == 0 {
+		anchorFail("no operation on Aggregator.reCache found")
+	}
+}
+
+func c03r4b(c *Check, cacheF, matcherF *types.Var) {
 	// (b) key and value provenance in matchWithCache
 	mwc := c.P.Func("aggregator", "*Aggregator", "matchWithCache")
 	keyPar := mwc.Params[1]
